@@ -217,6 +217,9 @@ HIST_OPS = [('save', sp) for sp in SPELLINGS] + [('assemble', 'abs'), ('assemble
            [('load', sp) for sp in SPELLINGS] + [('handler', 'abs'), ('handler', 'rel')]
 
 
+HIST_NAME = re.compile(r'^(lab\d+|common|ns\.m\d+---x)$')
+
+
 def spell(d, sp):
     """five spellings of the same file d/t.fjd (the process's cwd is d)"""
     from pathlib import Path
@@ -263,7 +266,9 @@ def run_history(seq, d, w=64):
             except Exception as e:  # noqa
                 got = f'{type(e).__name__}: {e}'
             if isinstance(got, dict) and from_assembler:
-                got = {n: a for n, a in got.items() if ':' not in n}  # the assembler adds its own ':start:'-style entries
+                # the assembler may add entries of its own (':start:'-style paths, per-segment labels): only the names this family ever writes
+                # matter - the current ones must be there with their addresses, the ones of earlier steps must be gone
+                got = {n: a for n, a in got.items() if HIST_NAME.match(n)}
             if got != current:
                 problems.append((k, current, got))
     return problems
@@ -366,6 +371,55 @@ def work_big_table(task):
     return stats, sieve.result(), None
 
 
+def work_internal_names(task):
+    """source labels spelled like the names the assembler makes up for itself (the per-segment `_.wflip_area_start_<k>` labels): such a label
+    is either refused with a diagnostic or it is in the table - and in the image - at the address of the statement it precedes."""
+    from fjv.enginecheck import scratch
+    from fjv.asm import assemble_text
+    from flipjump.fjm.fjm_reader import Reader
+    from flipjump.utils.exceptions import FlipJumpException
+    from flipjump.utils.functions import load_debugging_labels
+    from flipjump.interpreter.debugging.breakpoints import get_breakpoint_handler
+    from fjv.asm import quiet
+    _, w = task
+    sieve = Sieve(PROP)
+    stats = {'programs': 0, 'labels': 0, 'instances': 0, 'breakpoint_queries': 0}
+    wd = scratch()
+    for nseg, k, where in itertools.product((0, 1, 2), (0, 1, 2, 3), ('first', 'last')):
+        name = f'_.wflip_area_start_{k}'
+        decl = f'ns _ {{\nwflip_area_start_{k}:\n}}\n'
+        segs = [f'segment {(j + 1) * 64}*w\n;\n' for j in range(nseg)]
+        if where == 'first':
+            text, addr = f';{name}\n' + decl + ';\n' + ''.join(segs), 2 * w
+        else:
+            # declared in the last segment (after its only op)
+            text = f';{name}\n;\n' + ''.join(segs) + decl + ';\n'
+            addr = (nseg * 64 * w + 2 * w) if nseg else 4 * w
+        out, dbg = wd / 'in.fjm', wd / 'in.fjd'
+        stats['programs'] += 1
+        try:
+            assemble_text(text, out, wd, w=w, version=1, use_stl=False, werror=False, debug_path=dbg)
+        except FlipJumpException:
+            continue   # diagnosed: fine
+        except Exception as e:  # noqa
+            sieve.add({'kind': 'a label spelled like an assembler-internal name: raw failure', 'class': 'internal names raw', 'case': {'w': w, 'text': text},
+                       'expected': 'a diagnostic or a table entry', 'observed': f'{type(e).__name__}: {e}', 'summary': f'w={w} label {name} ({nseg} segment statements): {type(e).__name__}'})
+            continue
+        table = load_debugging_labels(dbg)
+        stats['labels'] += len(table)
+        jump0 = Reader(out).memory.get(1, 0)
+        with quiet():
+            bp = sorted(get_breakpoint_handler(dbg, None, {name}, None).breakpoints)
+        stats['breakpoint_queries'] += 1
+        got = {'table': table.get(name), 'jump word of op 0': jump0, 'breakpoint': bp}
+        exp = {'table': addr, 'jump word of op 0': addr, 'breakpoint': [addr]}
+        if got != exp:
+            sieve.add({'kind': 'a source label spelled like an assembler-internal name is accepted but not at its statement', 'class': 'internal names address',
+                       'case': {'w': w, 'text': text, 'label': name, 'segment_statements': nseg, 'declared_in': where}, 'expected': exp, 'observed': got,
+                       'summary': f'w={w} label {name} declared in the {where} segment of {nseg + 1}: {got} instead of {exp}'})
+    return stats, sieve.result(), None
+
+
 def work(task):
     from fjv.enginecheck import scratch
     from fjv import gen_macros
@@ -376,6 +430,8 @@ def work(task):
         return work_stl_tables(task)
     if kind == 'histories':
         return work_histories(task)
+    if kind == 'internal-names':
+        return work_internal_names(task)
     sieve = Sieve(PROP)
     stats = {'programs': 0, 'labels': 0, 'instances': 0, 'breakpoint_queries': 0}
     wd = scratch()
@@ -452,7 +508,7 @@ def main():
         return replay(args)
     run = Run(PROP, 'exploration', args)
     widths = (16, 32, 64) if args.tier == 'thorough' else (16, 64)
-    tasks = [('synthetic',)] + [('family', args.tier, w, p, 16) for w in widths for p in range(16)]
+    tasks = [('synthetic',)] + [('internal-names', w) for w in widths] + [('family', args.tier, w, p, 16) for w in widths for p in range(16)]
     hist_depth = 5 if args.tier == 'thorough' else 4
     tasks += [('histories', hist_depth, f) for f in range(len(HIST_OPS)) if HIST_OPS[f][0] not in ('load', 'handler')]
     total, samples = {}, []
